@@ -68,8 +68,9 @@ Inductive desc :=
 | DProperty (d : desc)       (* settable validated Property(<trait>): validated with the trait's Python validate *)
 | DVTuple (ds : list desc) (fv : option Z)    (* ValidatedTuple(traits.., fvalidate=f): Python only; f is oracle 500 + fv *)
 | DList (d : desc) (minlen maxlen : Z)        (* List(<trait>, minlen=, maxlen=): Python only; a member of Tuple / Either / Union *)
-| DRangeDyn (lo hi : Z) (mask : Z).           (* Range(low='lo', high='hi'): bounds are OTHER attributes of the instance (ids lo,
+| DRangeDyn (lo hi : Z) (mask : Z)            (* Range(low='lo', high='hi'): bounds are OTHER attributes of the instance (ids lo,
                                                  hi); validated against the instance state: see C01.Model.validate_s *)
+| DDict (kd vd : desc).                       (* Dict(<key trait>, <value trait>): Python only *)
 
 Inductive vres := Accept (w : pv) | Reject | Propagate (e : exn).
 
@@ -97,7 +98,7 @@ Fixpoint is_fast (d : desc) : bool :=
   | DTuple ds => negb (is_nil_pv ds)                 (* trait_types.py:2333-2348 *)
   | DCompound ds => existsb is_fast ds               (* trait_handlers.py:680-686 *)
   | DAny | DRangeI _ _ _ | DType _ _ | DString _ _ _ | DPrefixList _ | DPrefixMap _ | DUnion _
-  | DArray _ _ _ | DProperty _ | DVTuple _ _ | DList _ _ _ | DRangeDyn _ _ _ => false
+  | DArray _ _ _ | DProperty _ | DVTuple _ _ | DList _ _ _ | DRangeDyn _ _ _ | DDict _ _ => false
   end.
 
 (* ---------- ctraits.c:3535 in_float_range (reference; T2 regenerates it from the source) ---------- *)
@@ -399,6 +400,45 @@ Definition list_check (f : pv -> vres) (minlen maxlen : Z) (v : pv) : vres :=
   | _ => Reject
   end.
 
+(* Dict.validate (trait_types.py:3037-3050): a dict is copied into a TraitDictObject, whose constructor builds
+   {key_validator(k): value_validator(v) for k, v in items} (trait_dict_object.py:137-139) with key_trait.validate /
+   value_trait.validate = CTrait.validate; item by item, key first; the first failure decides; converted keys that are
+   equal collapse (first key object kept, last value wins).  (Converted keys are assumed hashable.) *)
+Inductive dres := DOk (l : list (pv * pv)) | DRej | DExn (e : exn).
+Definition all_pairs (fk fv : pv -> vres) : list (pv * pv) -> dres :=
+  fix go kvs :=
+    match kvs with
+    | [] => DOk []
+    | (k, x) :: r =>
+        match fk k with
+        | Accept k' =>
+            match fv x with
+            | Accept x' => match go r with DOk l => DOk ((k', x') :: l) | t => t end
+            | Reject => DRej
+            | Propagate e => DExn e
+            end
+        | Reject => DRej
+        | Propagate e => DExn e
+        end
+    end.
+Fixpoint dict_put (l : list (pv * pv)) (k x : pv) : list (pv * pv) :=
+  match l with
+  | [] => [(k, x)]
+  | (k0, x0) :: r => if py_eq k k0 then (k0, x) :: r else (k0, x0) :: dict_put r k x
+  end.
+Definition dict_build (l : list (pv * pv)) : list (pv * pv) :=
+  fold_left (fun acc kv => dict_put acc (fst kv) (snd kv)) l [].
+Definition dict_check (fk fv : pv -> vres) (v : pv) : vres :=
+  match v with
+  | PDict kvs =>
+      match all_pairs fk fv kvs with
+      | DOk l => Accept (PDict (dict_build l))
+      | DRej => Reject
+      | DExn e => Propagate e
+      end
+  | _ => Reject
+  end.
+
 (* ---------- the validators ---------- *)
 Fixpoint c_validate (E : env) (d : desc) (v : pv) {struct d} : vres :=
   match d with
@@ -451,6 +491,7 @@ Fixpoint c_validate (E : env) (d : desc) (v : pv) {struct d} : vres :=
   | DVTuple ds fv => vtuple_check (c_validate E) E ds fv v
   | DList d' mn mx => list_check (c_validate E d') mn mx v
   | DRangeDyn _ _ _ => Reject                   (* no instance here: the state-dependent validator is C01.Model.validate_s *)
+  | DDict kd vd => dict_check (c_validate E kd) (c_validate E vd) v
   end
 
 (* one case of the switch in validate_trait_complex; `Reject` = `break` (try the next item) *)
@@ -524,7 +565,7 @@ with c_case (E : env) (d : desc) (v : pv) {struct d} : vres :=
       | x => x
       end
   | DAny | DRangeI _ _ _ | DType _ _ | DString _ _ _ | DPrefixList _ | DPrefixMap _
-  | DUnion _ | DArray _ _ _ | DProperty _ | DVTuple _ _ | DList _ _ _ | DRangeDyn _ _ _ => Reject    (* never in the fast list *)
+  | DUnion _ | DArray _ _ _ | DProperty _ | DVTuple _ _ | DList _ _ _ | DRangeDyn _ _ _ | DDict _ _ => Reject    (* never in the fast list *)
   end
 
 with py_validate (E : env) (d : desc) (v : pv) {struct d} : vres :=
@@ -618,6 +659,7 @@ with py_validate (E : env) (d : desc) (v : pv) {struct d} : vres :=
   | DVTuple ds fv => vtuple_check (c_validate E) E ds fv v
   | DList d' mn mx => list_check (c_validate E d') mn mx v
   | DRangeDyn _ _ _ => Reject
+  | DDict kd vd => dict_check (c_validate E kd) (c_validate E vd) v
   end.
 
 (* ---------- well-formedness of a description (what the constructors can build) ---------- *)
@@ -627,6 +669,7 @@ Fixpoint wf_desc (d : desc) : bool :=
   | DProperty d' => wf_desc d'
   | DVTuple ds _ => forallb wf_desc ds
   | DList d' _ _ => wf_desc d'
+  | DDict kd vd => wf_desc kd && wf_desc vd
   | DTuple ds => forallb wf_desc ds
   | DCompound ds =>
       forallb wf_desc ds &&
